@@ -16,7 +16,7 @@ void h_configure(HConfig &cfg) {
 
 void h_run(Case &c) {
   Draw &d = c.head; long ps = sysconf(_SC_PAGESIZE);
-  SpecOpts so; so.misc_keep = true; so.syn.max_pus = 48; so.xml_den = 6; TopoSpec sp = gen_topospec(d, so); sp.flags &= ~(unsigned long)HWLOC_TOPOLOGY_FLAG_IS_THISSYSTEM; c.desc(sp.text());
+  SpecOpts so; so.misc_keep = true; so.syn.max_pus = 48; so.xml_den = 6; so.gx_num = 1; so.gx_den = 6; TopoSpec sp = gen_topospec(d, so); sp.flags &= ~(unsigned long)HWLOC_TOPOLOGY_FLAG_IS_THISSYSTEM; c.desc(sp.text());
   hwloc_topology_t t; hwloc_topology_init(&t); if (apply_spec_and_load(c, t, sp) < 0) { hwloc_topology_destroy(t); c.discard(); }
   OpOpts oo; { const char *e = getenv("VERIF_INCLUDE_KNOWN"); oo.allow_cpuless_nodeset_group = e && strstr(e, "F-C02-d"); }
   for (size_t i = 0; i < c.ops.size(); i++) { OpRes r = apply_op(c, c.ops[i], t, oo); c.desc("\n | " + r.desc); }
